@@ -78,7 +78,7 @@ func c14StripAddr(v *c14Val) *c14Val {
 // canon returns the term of e evaluated at node at (a node of g in activation ctx).
 func (g *c14Graph) canon(ctx *c14Ctx, e ast.Expr, at *c14Node) *c14Val {
 	mk := fmt.Sprintf("%d|%p|%d", ctx.id, e, c14AtID(at))
-	if v := g.valMemo[mk]; v != nil {
+	if v := g.valMemo[mk]; v != nil && g.fromStates == nil {
 		return v
 	}
 	g.valDepth++
@@ -92,7 +92,9 @@ func (g *c14Graph) canon(ctx *c14Ctx, e ast.Expr, at *c14Node) *c14Val {
 	if v.node == nil {
 		v.node = e
 	}
-	g.valMemo[mk] = v
+	if g.fromStates == nil {
+		g.valMemo[mk] = v
+	}
 	return v
 }
 
@@ -122,7 +124,13 @@ func (g *c14Graph) canon1(ctx *c14Ctx, e ast.Expr, at *c14Node) *c14Val {
 		}
 	case *ast.SelectorExpr:
 		if f := fieldOf(info, x); f != nil {
-			b := c14StripAddr(g.canon(ctx, x.X, at))
+			raw := g.canon(ctx, x.X, at)
+			b := c14StripAddr(raw)
+			if raw.k == 'L' { // a struct held by value (not reached through a pointer, whose fields may be assigned later)
+				if v := g.fieldOfLiteral(raw, f); v != nil {
+					return v // a field of a struct value known to be a particular composite literal
+				}
+			}
 			return &c14Val{k: 'f', key: fmt.Sprintf("f%d(%s)", g.e.oid(f), b.key), obj: f, x: b, at: at}
 		}
 		if o := info.Uses[x.Sel]; o != nil {
@@ -173,7 +181,7 @@ func (g *c14Graph) canon1(ctx *c14Ctx, e ast.Expr, at *c14Node) *c14Val {
 		a, b := g.canon(ctx, l, at), g.canon(ctx, r, at)
 		return &c14Val{k: 'b', key: "(" + a.key + op.String() + b.key + ")", op: op, x: a, y: b}
 	case *ast.CompositeLit:
-		return &c14Val{k: 'L', key: fmt.Sprintf("L#%d", g.e.nid(x)), node: x, typ: info.TypeOf(x)}
+		return &c14Val{k: 'L', key: fmt.Sprintf("L#%d", g.e.nid(x)), node: x, typ: info.TypeOf(x), ctx: ctx, at: at}
 	case *ast.CallExpr:
 		if tv, ok := info.Types[x.Fun]; ok && tv.IsType() && len(x.Args) == 1 {
 			a := g.canon(ctx, x.Args[0], at)
@@ -273,6 +281,11 @@ func (g *c14Graph) writes(n *c14Node, owner *c14Ctx, o types.Object) bool {
 					return true
 				}
 			}
+			for _, ro := range owner.fn.results { // named results are zeroed on entry
+				if ro != nil && ro == o {
+					return true
+				}
+			}
 		}
 		return false
 	}
@@ -289,15 +302,30 @@ func (g *c14Graph) writes(n *c14Node, owner *c14Ctx, o types.Object) bool {
 		}
 		return false
 	}
+	// `x.f = …` / `x.f.g++` on a struct held by value changes x
+	isField := func(e ast.Expr) bool {
+		for {
+			sel, ok := ast.Unparen(e).(*ast.SelectorExpr)
+			if !ok {
+				return false
+			}
+			if t := info.TypeOf(sel.X); t != nil {
+				if _, isStruct := t.Underlying().(*types.Struct); isStruct && is(sel.X) {
+					return true
+				}
+			}
+			e = sel.X
+		}
+	}
 	switch x := n.ast.(type) {
 	case *ast.AssignStmt:
 		for _, l := range x.Lhs {
-			if is(l) {
+			if is(l) || isField(l) {
 				return true
 			}
 		}
 	case *ast.IncDecStmt:
-		return is(x.X)
+		return is(x.X) || isField(x.X)
 	case *ast.ValueSpec:
 		for _, nm := range x.Names {
 			if info.Defs[nm] == o {
@@ -314,7 +342,11 @@ func (g *c14Graph) reachingDefs(owner *c14Ctx, o types.Object, at *c14Node) (def
 	seen := map[*c14State]bool{}
 	got := map[*c14Node]bool{}
 	var work []*c14State
-	for _, s := range g.byNode[at] {
+	starts := g.byNode[at]
+	if fs, ok := g.fromStates[at]; ok {
+		starts = fs // only the states of `at` that lie on the paths of interest (c14_result.go)
+	}
+	for _, s := range starts {
 		if len(s.in) == 0 {
 			entry = true
 		}
@@ -349,6 +381,16 @@ func (g *c14Graph) defValue(d *c14Node, owner *c14Ctx, o types.Object, use *c14N
 		call := d.inl[d.step]
 		if a := c14Bindings(owner.fn, call)[o]; a != nil {
 			return g.canon(d.ctx, a, d)
+		}
+		for _, ro := range owner.fn.results {
+			if ro != nil && ro == o {
+				switch c14ZeroVal(o.Type()) {
+				case c14Nil:
+					return &c14Val{k: 'n', key: "nil"}
+				case c14False:
+					return &c14Val{k: 'c', key: "c(false)", cv: constant.MakeBool(false)}
+				}
+			}
 		}
 		return nil
 	}
@@ -512,50 +554,6 @@ type c14RangeVar struct {
 	isKey bool
 }
 
-// countingLoop recognises `for i := 0; i < len(X); i++ { … }` whose body assigns neither i nor the variable X is
-// rooted in: it visits every index of X exactly like `for i := range X`.
-func (g *c14Graph) countingLoop(l *c14Loop) (counter types.Object, x ast.Expr) {
-	fs, ok := l.stmt.(*ast.ForStmt)
-	if !ok || fs.Init == nil || fs.Cond == nil || fs.Post == nil {
-		return nil, nil
-	}
-	info := l.ctx.fn.info
-	init, ok := fs.Init.(*ast.AssignStmt)
-	if !ok || init.Tok != token.DEFINE || len(init.Lhs) != 1 || len(init.Rhs) != 1 {
-		return nil, nil
-	}
-	if v, ok := constInt(info, init.Rhs[0]); !ok || v != 0 {
-		return nil, nil
-	}
-	i := objOf(info, init.Lhs[0])
-	post, ok := fs.Post.(*ast.IncDecStmt)
-	if i == nil || !ok || post.Tok != token.INC || objOf(info, post.X) != i {
-		return nil, nil
-	}
-	lhs, op, rhs, ok := cmpNorm(fs.Cond)
-	if !ok || op != token.LSS || objOf(info, lhs) != i {
-		return nil, nil
-	}
-	call, ok := ast.Unparen(rhs).(*ast.CallExpr)
-	if !ok || builtinName(info, call) != "len" || len(call.Args) != 1 {
-		return nil, nil
-	}
-	x = call.Args[0]
-	root := x
-	for {
-		if sel, ok := ast.Unparen(root).(*ast.SelectorExpr); ok {
-			root = sel.X
-			continue
-		}
-		break
-	}
-	ro := objOf(info, root)
-	if ro == nil || len(c14Writes(info, fs.Body, i)) > 0 || len(c14Writes(info, fs.Body, ro)) > 0 {
-		return nil, nil
-	}
-	return i, x
-}
-
 // rangeVarOf tells whether term v is a variable bound by a range statement, or the counter of a counting loop
 // (and never assigned elsewhere).
 func (g *c14Graph) rangeVarOf(v *c14Val) *c14RangeVar {
@@ -635,7 +633,15 @@ func (g *c14Graph) elemOf(v *c14Val, l *c14Loop) bool {
 		return !rv.isKey && same(rv.loop)
 	}
 	if v.k == 'i' {
-		if rv := g.rangeVarOf(v.y); rv != nil && rv.isKey && same(rv.loop) {
+		idx := v.y
+		if _, _, off := g.countingLoopOff(l); off == -1 {
+			// `for i := len(X); i > 0; i-- { … X[i-1] … }`
+			if idx.k != 'b' || idx.op != token.SUB || idx.y.k != 'c' || idx.y.key != "c(1)" {
+				return false
+			}
+			idx = idx.x
+		}
+		if rv := g.rangeVarOf(idx); rv != nil && rv.isKey && same(rv.loop) {
 			if x := g.rangeX(l); x != nil && c14StripAddr(x).key == v.x.key {
 				return true
 			}
